@@ -25,6 +25,10 @@ FLAGS = ["pseudo", "partial"]                       # valueless attribute keys
 GTF_KEYS = [["tx", "gn"], ["transcript_name", "gene_name"], ["Parent", "gene_id"], ["transcript_id", "locus"],
             ["mRNA", "transcript_id"], ["gene_id", "transcript_id"]]
 DOT_POOL = {"start": [".", ".", "100", "150"], "end": [".", ".", "200", "300"]}
+# (start, end) pairs that lie in different genomic bins at every level of the usual binning schemes (all far below 2**29)
+POSITIONS = [["1", "500"], ["40000001", "40000500"], ["100", "200"], ["300000000", "300000400"], ["65000", "70000"],
+             ["131073", "131074"]]
+EXTRAS = ["x1", "y", "10", "é", "a b", ".", "0.5", "ID=K"]       # 10th / 11th tab-separated fields
 
 # opts (all optional; plain data, only used while generating):
 #     flags    True: valueless attribute keys on the colliding features (extra flag keys; Note/Alias sometimes valueless)
@@ -32,6 +36,10 @@ DOT_POOL = {"start": [".", ".", "100", "150"], "end": [".", ".", "200", "300"]}
 #     gtfkeys  [transcript key, gene key] for the GTF importer (decoy transcript_id / gene_id attributes may be present)
 #     shuffle  True: force_merge_fields is handed over in a non-canonical order
 #     nbase    number of colliding base keys
+#     extras   True: the colliding lines carry 0-2 fields after the attribute column; they differ from arrival to arrival
+#              (under 'merge': one list per base key, the statement does not say whether such columns must agree)
+#     farbins  True: the column variants of a key are placed at POSITIONS (different genomic bins)
+#     verbose  False | True | "debug": handed to create_db and to every update (absent: not handed over)
 
 
 def pool(c, opts):
@@ -58,6 +66,24 @@ def vary(rng, cols, force, opts=None):
     for c in pick:
         new[c] = rng.choice([v for v in pool(c, opts) if v != cols[c]])
     return new
+
+
+def draw_extra(rng, opts, fixed=None):
+    if not (opts or {}).get("extras"):
+        return []
+    if fixed is not None:
+        return list(fixed)
+    return rng.sample(EXTRAS, rng.choice([0, 1, 1, 2, 2]))
+
+
+def place(rng, cols, opts):
+    """farbins: put a column variant at one of POSITIONS."""
+    if (opts or {}).get("farbins") and not (opts or {}).get("dots"):
+        inverted = int(cols["start"]) > int(cols["end"])      # a variant of a placed feature: only one coordinate redrawn
+        if inverted or rng.random() < 0.75:
+            cols = dict(cols)
+            cols["start"], cols["end"] = rng.choice(POSITIONS)
+    return cols
 
 
 def attributes(rng, fmt, idkey, key, opts=None):
@@ -111,12 +137,13 @@ def gen_history(rng, fmt, strategy, force, path, arrivals=None, opts=None):
             if rng.random() < 0.8:
                 cols = columns(rng, opts)
                 cols["featuretype"] = "mRNA"
-                rec = dict(cols, attrs=[["ID", [p]], ["Note", ["parent"]]], extra=[])
+                rec = dict(cols, attrs=[["ID", [p]], ["Note", ["parent"]]], extra=draw_extra(rng, opts))
                 steer.arrive(p, rec)
                 recs.append(rec)
     nbase = opts.get("nbase") or rng.choice([1, 1, 2])
     bases = rng.sample(BASES, nbase)
-    variants = dict((b, [columns(rng, opts)]) for b in bases)
+    variants = dict((b, [place(rng, columns(rng, opts), opts)]) for b in bases)
+    same_extra = dict((b, draw_extra(rng, opts) if strategy == "merge" else None) for b in bases)
     todo = dict((b, arrivals or rng.choice([2, 3, 3, 4, 5, 6])) for b in bases)
     pattern = dict((b, []) for b in bases)
     aborted = False
@@ -135,9 +162,9 @@ def gen_history(rng, fmt, strategy, force, path, arrivals=None, opts=None):
         elif rng.random() < 0.35:
             vi = 0
         else:
-            vs.append(vary(rng, vs[0], force if strategy == "merge" else rng.sample(M.COLS, 2), opts))
+            vs.append(place(rng, vary(rng, vs[0], force if strategy == "merge" else rng.sample(M.COLS, 2), opts), opts))
             vi = len(vs) - 1
-        rec = dict(vs[vi], attrs=attributes(rng, fmt, idkey, key, opts), extra=[])
+        rec = dict(vs[vi], attrs=attributes(rng, fmt, idkey, key, opts), extra=draw_extra(rng, opts, same_extra[b]))
         try:
             steer.arrive(key, rec)
         except M.Silent:
@@ -151,7 +178,8 @@ def gen_history(rng, fmt, strategy, force, path, arrivals=None, opts=None):
         todo[b] -= 1
         if rng.random() < 0.15:
             u = "u%d" % len(recs)
-            rec = dict(columns(rng, opts), attrs=attributes(rng, fmt, idkey, u, opts), extra=[])
+            rec = dict(place(rng, columns(rng, opts), opts), attrs=attributes(rng, fmt, idkey, u, opts),
+                       extra=draw_extra(rng, opts))
             steer.arrive(u, rec)
             recs.append(rec)
     if aborted and rng.random() < 0.5:
@@ -176,7 +204,9 @@ def gen_history(rng, fmt, strategy, force, path, arrivals=None, opts=None):
     }
     if opts.get("gtfkeys"):
         case["gtfkeys"] = list(opts["gtfkeys"])
-    tags = [k for k in ("flags", "dots", "gtfkeys") if opts.get(k)]
+    if opts.get("verbose") is not None:
+        case["verbose"] = opts["verbose"]
+    tags = [k for k in ("flags", "dots", "gtfkeys", "extras", "farbins") if opts.get(k)]
     if tags:
         case["opts"] = tags
     return case
